@@ -11,7 +11,7 @@ def keyfn(case, res, m):
     # finding key = monitor rule (+ the operation for wrong results; + the type for unusable proxy types)
     ev = res.get('events') or [['-', '-']]
     if m['rule'] in ('traceback', 'hang', 'call-failed', 'lost-update', 'dead-proxy', 'concurrent-managed', 'method-missing',
-                     'inplace-rebinds'):
+                     'inplace-rebinds', 'argument-not-delivered'):
         return m['rule']
     if m['rule'] == 'unusable-proxy-type':
         return f"{m['rule']}:{ev[-1][1]}"
@@ -34,7 +34,8 @@ def run(chk):
                  n, keyfn=keyfn, sched=False, engine='E4-manager-processes+lean', corpus=corpus,
                  escalate_n=100 if chk.tier == 'quick' else 1000)
     chk.cov['rule'] = (
-        'cases = 2-5 hosted objects (list, dict, Namespace, Value, custom Counter) on a real ServerProcess, proxies to '
+        '40 % of the cases on TWO manager servers (proxies of objects of one server as arguments / stored values of calls on '
+        'objects of the other), a quarter of the others with an explicit manager authkey; cases = 2-5 hosted objects (list, dict, Namespace, Value, custom Counter) on a real ServerProcess, proxies to '
         'all of them held by the director and 1-2 spawned client processes; random history (quick <= 12, thorough <= 60 '
         'operations + a final read of every object) of list/dict/namespace/value/Counter methods with arbitrary '
         'picklable arguments (ints, None, bools, str, big int, tuples, nested lists/dicts, bytes, float, frozenset, '
